@@ -238,10 +238,14 @@ Definition tr_bonds (g g' : mol) : bool :=
 Definition tr_doubles (g g' : mol) : bool :=
   forallb2 (fun x y => old_doubles (snd x) (snd y) <=? 1) (m_adj g) (m_adj g').
 
-(* quinone exclusion: an atom that gains aromatic bonds keeps no double bond (its double bond, if any, went into the ring) *)
+(* quinone exclusion: an atom that gains aromatic bonds keeps no double bond to a TERMINAL atom (C=O, C=S, C=NH, C=CH2: such
+   a neighbour is in no ring, the atom is `double_bonded` for thiele and leaves the skeleton).  A double bond to an atom of
+   another candidate ring that is pruned later may stay (O=C1N2C=CC=CC2=Nc3ccccc13: the N2..C=N ring is aromatised). *)
 Definition gained_arom (l l' : nbl) : Z := moved 1 4 l l' + moved 2 4 l l'.
+Definition exo_terminal (g' : mol) (l' : nbl) : bool :=
+  existsb (fun mb => ord_is 2 mb && (Z.of_nat (List.length (nbrs g' (fst mb))) =? 1)) l'.
 Definition tr_quinone (g g' : mol) : bool :=
-  forallb2 (fun x y => (gained_arom (snd x) (snd y) =? 0) || negb (has_ord 2 (snd y))) (m_adj g) (m_adj g').
+  forallb2 (fun x y => (gained_arom (snd x) (snd y) =? 0) || negb (exo_terminal g' (snd y))) (m_adj g) (m_adj g').
 
 Definition thiele_rel_core (g g' : mol) : bool := tr_atoms g g' && tr_bonds g g' && tr_doubles g g'.
 Definition thiele_rel_noh (g g' : mol) : bool := thiele_rel_core g g' && tr_quinone g g'.
